@@ -119,11 +119,12 @@ def check(prog, rep):
 
     def moved_names(adj, ranks, pivot):
         """Evaluate the selection procedure of get_moveable_names on the topology model of one residue."""
-        resobj = {"__res__": True}
+        from ..guards import Obj
+        resobj = Obj({"__res__": True})
         atoms = {}
         for a in adj:
-            atoms[a] = {"name": a, "refdistance": ranks[a] if ranks[a] is not None else 0, "is_backbone": a in backbone, "residue": resobj,
-                        "is_hydrogen": a.startswith("H"), "bonds": []}
+            atoms[a] = Obj({"name": a, "refdistance": ranks[a] if ranks[a] is not None else 0, "is_backbone": a in backbone, "residue": resobj,
+                            "is_hydrogen": a.startswith("H"), "bonds": []})  # (hashable by identity, like the atoms they stand for)
         for a in adj:
             atoms[a]["bonds"] = [atoms[b] for b in sorted(adj[a])]
         resobj["atoms"] = [atoms[a] for a in adj]
@@ -140,6 +141,13 @@ def check(prog, rep):
             if nm in ("len", "list", "set", "sorted"):
                 args = [interp.ev(x) for x in call.args]
                 return {"len": len, "list": list, "set": lambda v: v, "sorted": lambda v: v}[nm](*args)
+            if isinstance(call.func, ast.Attribute) and call.func.attr in ("add", "append", "extend", "discard", "remove", "pop", "update", "copy", "insert",
+                                                                          "popleft", "appendleft", "index", "count", "union", "difference"):
+                recv = interp.ev(call.func.value)
+                if isinstance(recv, (list, set)) or (isinstance(recv, dict) and not isinstance(recv, Obj)):
+                    return getattr(recv, call.func.attr)(*[interp.ev(x) for x in call.args])  # bookkeeping containers of the procedure itself
+            if nm in ("deque", "collections.deque") and len(call.args) <= 1:
+                return list(interp.ev(call.args[0])) if call.args else []
             raise AnalysisError(f"get_moveable_names: unsupported call {nm!r}: the selection procedure left the analysable subset")
 
         it = Interp({"self": resobj, gparams[1]: pivot}, call_hook=hook, loop_hook=model.loop_hook())
@@ -278,7 +286,12 @@ def check(prog, rep):
             r2.ok(f"writer|{key}", "unreachable legacy code (excluded; comes back into scope if something calls it)", where)
             continue
         if kind is None:
-            r2.bad(f"writer|{key}", "new coordinate writer: not a constructor, not a placement of a fresh atom, not a rigid mover", where)
+            # a writer the table does not know: accepted only if every store provably goes to an object constructed in the same function
+            bases_ = sorted({U(n.value) for n in st if isinstance(n, ast.Attribute)})
+            if bases_ and all(isinstance(n, ast.Attribute) for n in st) and all(_fresh(f.node, b) for b in bases_):
+                r2.ok(f"writer|{key}", f"new writer, verified: stores on {bases_}, each constructed in this function (placement of a fresh atom)", where)
+            else:
+                r2.bad(f"writer|{key}", "new coordinate writer: not a constructor, not a placement of a fresh atom, not a rigid mover", where)
             continue
         ok, why = verify_writer(prog, f, st, kind)
         r2.add(f"writer|{key}", ok, f"{classes[kind]}: {why}", where)
